@@ -720,7 +720,7 @@ pub fn run(tier: Tier, seed: u64) -> i32 {
     let p0 = Params { max_dev: 0, seeds: vec![seed], time_limit: Duration::from_secs(if q { 20 } else { 600 }), ..Default::default() };
     rep.add("handles: travel paths over a 3-endpoint triangle x accessor at every stop x clone/provider drop orders", explore("C20", handle_grid(tier), p0.clone(), &known));
     rep.add("lazy values and blobs: sizes x hops x double fetch x chunked relaying x connection cut at every frame", explore("C20", lazy_grid(tier), p0, &known));
-    let p = Params { max_dev: if q { 1 } else { 2 }, seeds: vec![seed], time_limit: Duration::from_secs(if q { 15 } else { 600 }), ..Default::default() };
+    let p = Params { max_dev: 2, seeds: vec![seed], time_limit: Duration::from_secs(if q { 15 } else { 600 }), ..Default::default() };
     rep.add("core scenarios under schedule exploration", explore("C20", core(tier), p, &known));
     rep.rule = "a case = (handle: path over <= 3 connections of a triangle incl. returning over the other connection, accessor as_ref / as_mut / cast+as_ref / into_inner at every stop, clones and provider dropped in different orders; lazy: Lazy<Vec<u8>> or LazyBlob of size 0/1/chunk/buffer+1/3*buffer/1000 forwarded over 1..3 connections, fetched once or twice concurrently, relays with small max_data_size, connection cut after k frames of the fetch, provider dropped); distinct = distinct accessor / fetch results; non-trivial = the handle moved / a fetch result was obtained".into();
     rep.assumptions = vec!["the stored value carries its identity and a drop counter".into(), "Lazy<Vec<u8>> values above max_data_size use helper threads (free-running schedule, labelled non-deterministic)".into()];
